@@ -268,6 +268,9 @@ def normalize(model):
     nsw = lower_switches(model)
     if nsw:
         notes.append("%d switch statement(s) lowered to if / else-if chains" % nsw)
+    ngl = guards_to_loop_condition(model)
+    if ngl:
+        notes.append("%d endless loop(s) with leading break guards rewritten as while loops" % ngl)
     cands = {}
     for key, f in model.funcs.items():
         if not f.static or f.in_header or f.name in known:
@@ -356,6 +359,9 @@ def normalize(model):
             if not thread_flags(f):
                 break
         propagate_copies(f)
+        for _ in range(4):
+            if not fuse_repeated_tests(f):
+                break
     model._callgraph = None
     return notes
 
@@ -851,3 +857,163 @@ def propagate_copies(f):
                         y["type"] = r0.get("type", y.get("type"))
                         changed = True
     return changed
+
+
+def _cond_key(c):
+    """canonical text of a condition that only reads plain locals/parameters and literals, else None"""
+    ids = []
+    for x in walk(c):
+        k = x["kind"]
+        if k in ("CallExpr", "MemberExpr", "ArraySubscriptExpr", "CompoundAssignOperator", "UnaryExprOrTypeTraitExpr"):
+            return None
+        if k == "UnaryOperator" and x.get("opcode") in ("*", "++", "--", "&"):
+            return None
+        if k == "BinaryOperator" and x.get("opcode") in ("=", ","):
+            return None
+        if k == "DeclRefExpr":
+            if x["ref"].get("kind") not in ("VarDecl", "ParmVarDecl"):
+                return None
+            ids.append(x["ref"]["id"])
+    from .astutil import render
+    return render(strip(c, casts=True)), tuple(ids)
+
+
+def _assigned_ids(n):
+    out = set()
+    for y in walk(n):
+        t = None
+        if y["kind"] in ("BinaryOperator", "CompoundAssignOperator") and (y.get("opcode") == "=" or y["kind"] == "CompoundAssignOperator"):
+            t = strip(kids(y)[0], casts=True)
+        elif y["kind"] == "UnaryOperator" and y.get("opcode") in ("++", "--"):
+            t = strip(kids(y)[0], casts=True)
+        elif y["kind"] == "UnaryOperator" and y.get("opcode") == "&":
+            t = strip(kids(y)[0], casts=True)          # address taken: may be written through the pointer
+        if t is not None and t["kind"] == "DeclRefExpr":
+            out.add(t["ref"]["id"])
+    return out
+
+
+def fuse_repeated_tests(f):
+    """if (c) A else B;  S...;  if (c) C else D   with c over locals that nothing in between assigns
+       ->  if (c) { A; S...; C } else { B; S...; D }"""
+    changed = False
+    for blk in list(walk(f.body)):
+        if blk["kind"] != "CompoundStmt":
+            continue
+        st = blk["inner"]
+        i = 0
+        while i < len(st):
+            a = st[i]
+            if a["kind"] != "IfStmt":
+                i += 1
+                continue
+            ka = _cond_key(kids(a)[0])
+            if ka is None or _contains_return(a):
+                i += 1
+                continue
+            j = None
+            for jj in range(i + 1, min(len(st), i + 8)):
+                b = st[jj]
+                if b["kind"] == "IfStmt" and _cond_key(kids(b)[0]) == ka:
+                    j = jj
+                    break
+                if b["kind"] in ("ReturnStmt", "ForStmt", "WhileStmt", "DoStmt") and b["kind"] != "DoStmt":
+                    break
+            if j is None:
+                i += 1
+                continue
+            between = st[i + 1:j]
+            touched_ids = set()
+            for n_ in [a] + between:
+                touched_ids |= _assigned_ids(n_)
+            if touched_ids & set(ka[1]) or any(_contains_return(x) for x in between):
+                i += 1
+                continue
+            b = st[j]
+            ach, bch = kids(a), kids(b)
+
+            def block(n_):
+                if n_ is None:
+                    return []
+                return list(kids(n_)) if n_["kind"] == "CompoundStmt" else [n_]
+            then_ = block(ach[1]) + [_rename(x, {}) for x in between] + block(bch[1])
+            else_ = block(ach[2] if len(ach) > 2 else None) + between + block(bch[2] if len(bch) > 2 else None)
+            a["inner"] = [ach[0], _mk("CompoundStmt", then_, file=a.get("file"), line=a.get("line")),
+                          _mk("CompoundStmt", else_, file=a.get("file"), line=a.get("line"))]
+            del st[i + 1:j + 1]
+            changed = True
+        # continue scanning
+    return changed
+
+
+_FLIP = {"<": ">=", "<=": ">", ">": "<=", ">=": "<", "==": "!=", "!=": "=="}
+
+
+def _negate(c):
+    """syntactic negation of a condition, flipping comparisons and removing double negation"""
+    c0 = c
+    while c0["kind"] in ("ParenExpr",):
+        c0 = kids(c0)[0]
+    if c0["kind"] == "UnaryOperator" and c0.get("opcode") == "!":
+        return kids(c0)[0]
+    if c0["kind"] == "BinaryOperator" and c0.get("opcode") in _FLIP:
+        n = dict(c0)
+        n["opcode"] = _FLIP[c0["opcode"]]
+        return n
+    return _mk("UnaryOperator", [c0], opcode="!", type="int", file=c.get("file"), line=c.get("line"), col=c.get("col"))
+
+
+def _is_true_const(n):
+    if n is None or n["kind"] == "Null":
+        return True
+    v = _const_value(n)
+    return v is not None and v != 0
+
+
+def _only_break(stmt):
+    if stmt["kind"] == "BreakStmt":
+        return True
+    if stmt["kind"] == "CompoundStmt":
+        body = [x for x in kids(stmt) if x["kind"] != "NullStmt"]
+        return len(body) == 1 and body[0]["kind"] == "BreakStmt"
+    return False
+
+
+def guards_to_loop_condition(model):
+    """for (;;) { if (A) break; if (B) break; REST }   ->   while (!A && !B) { REST }   (guards evaluated in the same order,
+    with the same short-circuit)"""
+    n = 0
+    for f in model.funcs.values():
+        rel = model.rel(f.file) or ""
+        if not rel.startswith(("src/", "include/")):
+            continue
+        for x in walk(f.body):
+            ch = x.get("inner") or []
+            for i, lp in enumerate(ch):
+                if lp["kind"] == "ForStmt":
+                    parts = kids(lp)
+                    if not (len(parts) == 5 and parts[0]["kind"] == "Null" and _is_true_const(parts[2]) and parts[3]["kind"] == "Null"):
+                        continue
+                    body = parts[4]
+                elif lp["kind"] == "WhileStmt" and _is_true_const(kids(lp)[0]):
+                    body = kids(lp)[1]
+                else:
+                    continue
+                if body["kind"] != "CompoundStmt":
+                    continue
+                st = kids(body)
+                guards = []
+                k = 0
+                while k < len(st) and st[k]["kind"] == "IfStmt" and len(kids(st[k])) == 2 and _only_break(kids(st[k])[1]):
+                    guards.append(kids(st[k])[0])
+                    k += 1
+                if not guards:
+                    continue
+                cond = _negate(guards[0])
+                for g in guards[1:]:
+                    cond = _mk("BinaryOperator", [cond, _negate(g)], opcode="&&", type="int", file=lp.get("file"), line=lp.get("line"))
+                nb = dict(body)
+                nb["inner"] = st[k:]
+                ch[i] = _mk("WhileStmt", [cond, nb], file=lp.get("file"), line=lp.get("line"), col=lp.get("col"))
+                n += 1
+    return n
